@@ -97,3 +97,17 @@ Proof.
   - constructor; try lra. unfold vol2. rewrite cosd_90, cosd_120. lra.
   - split; [apply mat_eq; rm_simpl; ring | rm_simpl; ring].
 Qed.
+
+(* Nx3 arrays and the broadcast of one vector against many are row-wise applications of the same definitions *)
+Theorem C01_arrays_frac_cart_id : forall a b c alpha beta gamma r (us : list vec), valid_cell a b c alpha beta gamma -> proper_rot r ->
+  let L := build a b c alpha beta gamma r in List.map (L_fractional L) (List.map (L_cartesian L) us) = us.
+Proof. exact frac_cart_id_rows. Qed.
+Theorem C01_broadcast_dot_is_euclid : forall a b c alpha beta gamma r (u : vec) (vs : list vec), valid_cell a b c alpha beta gamma -> proper_rot r ->
+  let L := build a b c alpha beta gamma r in
+  List.map (L_dot L u) vs = List.map (fun v => vdot (L_cartesian L u) (L_cartesian L v)) vs.
+Proof. exact dot_rows_is_euclid. Qed.
+Theorem C01_broadcast_dist_is_euclid : forall (L : lat) (u : vec) (vs : list vec),
+  List.map (L_dist L u) vs = List.map (fun v => edist (L_cartesian L u) (L_cartesian L v)) vs.
+Proof. exact dist_rows_is_euclid. Qed.
+Theorem C01_arrays_norm_is_euclid : forall (L : lat) (xs : list vec), List.map (L_norm L) xs = List.map (fun x => enorm (L_cartesian L x)) xs.
+Proof. exact norm_rows_is_euclid. Qed.
